@@ -6,7 +6,7 @@ def run(prop, tier):
     if prop in ("C09", "C10", "C14"):
         import p1
         return p1.judge(prop, tier)
-    if prop in ("C01", "C02", "C03", "C04", "C05", "C06", "C16"):
+    if prop in ("C01", "C02", "C03", "C04", "C05", "C06", "C08", "C16"):
         import p2
         return p2.judge(prop, tier)
     if prop == "C19":
@@ -15,6 +15,9 @@ def run(prop, tier):
     if prop == "C20":
         import p7
         return p7.judge(prop, tier)
+    if prop in ("C12", "C13"):
+        import p4
+        return p4.judge(prop, tier)
     raise ToolError("no check for %s" % prop)
 
 
@@ -22,7 +25,7 @@ def replay(prop, path):
     if prop in ("C09", "C10", "C14"):
         import p1
         return p1.replay(prop, path)
-    if prop in ("C01", "C02", "C03", "C04", "C05", "C06", "C16"):
+    if prop in ("C01", "C02", "C03", "C04", "C05", "C06", "C08", "C16"):
         import p2
         return p2.replay(prop, path)
     if prop == "C19":
@@ -31,4 +34,7 @@ def replay(prop, path):
     if prop == "C20":
         import p7
         return p7.replay(prop, path)
+    if prop in ("C12", "C13"):
+        import p4
+        return p4.replay(prop, path)
     raise ToolError("no replay for %s" % prop)
